@@ -323,6 +323,34 @@ func FixedCorpus() []*Unit {
 		out = append(out, u)
 	}
 
+	// ---- enumonly / usesenum: a file that declares only enums, imported by another package
+	{
+		ue, fe := unit("enumonly", "file with enums only (no message)")
+		fe.Enum("Mode", "MODE_UNSPECIFIED", 0, "MODE_FAST", 1, "MODE_NEG", -5)
+		fe.Enum("Level", "LEVEL_0", 0, "LEVEL_HIGH", 100)
+		out = append(out, ue)
+		uu, fu := unit("usesenum", "imports an enum-only file; message without fields; go_package whose last element differs from the package name")
+		fu.P.Dependency = append(fu.P.Dependency, "verif/enumonly.proto")
+		fu.P.Options.GoPackage = proto.String(GoRoot + "usesenum;enumuser")
+		m := fu.Msg("Cfg")
+		m.F("mode", 1, E("verif.enumonly.Mode"))
+		m.R("modes", 2, E("verif.enumonly.Mode"))
+		m.U("levels", 3, E("verif.enumonly.Level"))
+		m.Map("by_name", 4, String, E("verif.enumonly.Level"))
+		o := m.Oneof("pick")
+		m.O(o, "m", 5, E("verif.enumonly.Mode"))
+		m.O(o, "l", 6, E("verif.enumonly.Level"))
+		fu.Msg("Nothing")
+		hold := fu.Msg("Holder")
+		hold.F("nothing", 1, M("verif.usesenum.Nothing"))
+		hold.R("nothings", 2, M("verif.usesenum.Nothing"))
+		hold.Map("nm", 3, Int64, M("verif.usesenum.Nothing"))
+		pair := fu.Msg("Pair") // only singular message fields of field-less messages
+		pair.F("a", 1, M("verif.usesenum.Nothing"))
+		pair.F("b", 2, M("verif.usesenum.Nothing"))
+		out = append(out, uu)
+	}
+
 	// ---- wkt: well-known types in every position
 	{
 		u, f := unit("wkt", "Any/Timestamp/Duration/FieldMask/Struct/Value/wrappers/Empty in singular/repeated/map/oneof")
